@@ -13,7 +13,8 @@ Transcription notes
   build, as in every debug/test build of the repo), table indexing with `month - 1 ≥ 12`, and
   `&s[a..b]` in `from_str` (out of range or not on a UTF-8 character boundary).
   Intermediate `i64` additions/multiplications of `from_instant`/`to_instant` stay below 2^58 in
-  absolute value for `u32` years (proved as `toInstant_in_i64` / the supported range lemma), so they
+  absolute value for `u32` years (theorem `toInstant_gregorian`: the result lies in the supported
+  range, hence in `i64`; `from_instant` only runs inside that range), so they
   are computed in `Int`; the `checked_mul`/`checked_add` of `Instant::add_*` are modelled explicitly.
 * Strings are lists of byte values (`List Nat`, each < 256; the driver converts). `s.chars()` is
   modelled by an explicit UTF-8 decoder (`decodeUtf8`), `s.is_ascii()` by `isAscii`,
